@@ -8,6 +8,6 @@ import (
 
 func TestMain(m *testing.M) {
 	ev.Main(m, "C19", "exploration",
-		"rapid draws a scenario: 2-12 sessions with a script each (message and namespace commands on shared and distinct mailboxes, IDLE, a literal left half-sent), a connector update stream and a teardown (LOGOUT, abrupt close in any protocol state incl. IDLE and mid-literal, RemoveUser with live sessions, Close while commands are in flight); the scripts run truly concurrently (one goroutine per session, update gate open), the binary is built with -race. Oracle: no data-race report, no recorded panic, every client call / RemoveUser / Close returns within the watchdog (on expiry the goroutine dump must show gluon goroutines blocked for >= 1 minute to count as a deadlock, else the run is inconclusive), after Close no goroutine with a gluon frame is left, and a fresh server on the same directories opens and reads every mailbox. Non-trivial: a scenario in which >= 2 sessions overlapped in time on the same mailbox and >= 1 teardown happened while another session still had commands to run; distinct by hash of the drawn scenario.",
+		"rapid draws a scenario: 2-12 sessions with a script each (message and namespace commands on shared and distinct mailboxes, IDLE, a literal left half-sent), connections that never log in and stay open (optionally with a LOGIN left in its literal), a connector update stream (which in half of the scenarios goes on offering updates during the teardown) and a teardown (LOGOUT, abrupt close in any protocol state incl. IDLE and mid-literal, RemoveUser with live sessions, Close while commands are in flight); the scripts run truly concurrently (one goroutine per session, update gate open), the binary is built with -race. Oracle: no data-race report, no recorded panic, every client call / RemoveUser / Close returns within the watchdog (on expiry the goroutine dump must show gluon goroutines blocked for >= 1 minute to count as a deadlock, else the run is inconclusive), after Close has returned - the context given to Serve still alive, the clients that never logged in still connected - no goroutine with a gluon frame is left, and a fresh server on the same directories opens and reads every mailbox. Non-trivial: a scenario in which >= 2 sessions overlapped in time on the same mailbox and >= 1 teardown happened while another session still had commands to run; distinct by hash of the drawn scenario.",
 		"only interleavings the Go scheduler produces are seen; failures are not shrinkable (the replay file is the scenario plus the race / deadlock report)")
 }
